@@ -35,7 +35,8 @@ fn main() {
         usage();
     }
     let thorough = tier == "thorough";
-    match args[1].as_str() {
+    // a panic of the harness itself is a machinery failure (exit 2), never a verdict
+    let r = std::panic::catch_unwind(std::panic::AssertUnwindSafe(|| match args[1].as_str() {
         "replay" => {
             if rest.is_empty() {
                 usage();
@@ -43,5 +44,9 @@ fn main() {
             props::replay::replay(&rest[0]);
         }
         p => props::run(p, thorough, &rest),
+    }));
+    if let Err(e) = r {
+        eprintln!("MACHINERY: the harness panicked: {}", guard::payload_msg(&e));
+        std::process::exit(2);
     }
 }
